@@ -124,13 +124,19 @@ def extra(rep, cov, tier, rng):
         lens = sorted(set([0, 1, 33, 94] + [r - p.tr - pre + d for r in (136, 272) for pre in (0, 2, 2 + 255, 2 + 11) for d in (-1, 0, 1) if r - p.tr - pre + d >= 0]))
         if tier == "quick":
             lens = lens[:4] + rng.sample(lens[4:], 6)
+        # long messages around sizes at which an implementation might switch buffers (powers of two), combined below with every
+        # context length: message + framing just below / at / above the size
+        big = [1024, 2048, 4096, 8192, 65536]
+        lens += [b - d for b in (big if tier == "thorough" else rng.sample(big, 2) + [2048]) for d in (0, 1, 8, 200, 257)] + [2049, 100000]
         calls, meta = [], []
         for sk, pk, ktag in keys:
             for ln in lens:
                 msg = bytes(rng.randrange(256) for _ in range(ln))
                 if p.mldsa:
                     mode = rng.choice(["pure", "pure", "sha256", "sha512"])
-                    ctx = rng.choice([None, b"", b"\x01", bytes(rng.randrange(256) for _ in range(255))])
+                    ctx = rng.choice([None, b"", b"\x01", bytes(rng.randrange(256) for _ in range(16)), bytes(rng.randrange(256) for _ in range(255))])
+                    if ln >= 1000:
+                        ctx = rng.choice([b"\x01", bytes(rng.randrange(256) for _ in range(16)), bytes(rng.randrange(256) for _ in range(255))])
                     hedged = rng.randrange(2)
                     c = ctx if ctx is not None else 0
                     if mode == "pure":
